@@ -195,9 +195,12 @@ def run(ctx, b, drv):
             if sig:
                 pend.add('C06:' + sig, dict(kind='theorem', obligation='gen/LL1_%s.v:ll1_tables_ok (FIRST/FOLLOW conflict recomputed in the harness)' % impl.vn(v), version=v, start=start, conflict=sig))
         reqs, cases = [], []
+        D = gens.Deriver(v)
         for start in ('file_input', 'eval_input'):
-            for i in range(per):
-                d = G.derive(start, [rnd.randint(5, 120)])
+            # one derivation through every arc of every rule reachable from the start rule, then random ones
+            todo = [D.derive_with_arc(rnd, start, arc, [rnd.choice([0, 0, 6])]) for arc in D.all_arcs(start)]
+            todo = [d for d in todo if d is not None] + [G.derive(start, [rnd.randint(5, 120)]) for i in range(per)]
+            for d in todo:
                 labs = []
                 yield_(d, labs)
                 exp = finish(collapse(d))
@@ -228,9 +231,9 @@ def run(ctx, b, drv):
             if ser != o:
                 mm.append(streams.Mismatch('derive', 0, dict(version=vv, start=start, recover=rec, labels=labs), ser, o))
         base.mismatches(ctx, pend, mm, None)
-        cov[v] = '%d arcs used of %d reachable from file_input' % (len(G.arc_use), G.reachable_arcs('file_input'))
+        cov[v] = '%d arcs used of %d reachable from file_input / eval_input (every arc is aimed at once)' % (len(set(G.arc_use) | set(D.arc_use)), len(set(D.all_arcs('file_input')) | set(D.all_arcs('eval_input'))))
     ctx.cov['arc_coverage'] = cov
     ctx.sample(dict(stream='derive', version=v, labels=labs[:40]))
     pend.flush()
-    ctx.cov['rule'] = ('random derivations from the rule automata of each grammar (file_input strict+recover, eval_input strict), steered to rarely used arcs, '
+    ctx.cov['rule'] = ('one derivation through every arc of every rule automaton of each grammar plus random derivations (file_input strict+recover, eval_input strict), steered to rarely used arcs, '
                        'rendered as token streams; distinct = distinct label sequence')
